@@ -5,7 +5,7 @@ META = dict(
     bounds=["K1 rle: N=6 symbolic bytes x enumerated write split / read split / seek target; inductive step from any RUN(3..129)/MIX(1..127) pending state + <=3 symbolic bytes"],
     stubs=["H-level element below the coders = harness/C05/stream_model.h (growable byte array)", "hcomp_priv.h compiled with union->struct in coder TUs (E5)",
            "error stack = codes only"],
-    outside=["streams longer than the bounds", "deflate's actual compression (zlib is external)", "szip"],
+    outside=["skipping-Huffman coder (cskphuff.c): not decided - see the note in checks/C05.py", "streams longer than the bounds", "deflate's actual compression (zlib is external)", "szip"],
     manifest=dict(
         level="Bounded model checking (CBMC/SAT) of the real coder sources (crle.c, cskphuff.c, cnbit.c, hbitio.c, hcomp.c header codec) over a byte-stream model of the "
               "element below them: round trips with ALL byte values symbolic for enumerated call partitions and seek targets, plus an inductive step from an arbitrary "
@@ -55,4 +55,6 @@ def plan(ctx, tier, seed):
                         extra_cc=["-I/verif/harness/C05"], field_sens=4096,
                         symbolic="4 field values (all bit patterns), seek target field, rewrite value", bound="4 fields; widths enumerated (curated + seed-derived)",
                         group="C05.K4.bitio"))
+    # skipping Huffman (harness/C05/k2_skphuff.c) is NOT part of any tier: even one symbolic byte makes the adaptive tree symbolic (out of memory at 14 GB),
+    # and with fully concrete data the 513-entry tree initialisation alone takes > 5 min of symbolic execution per instance (measured).
     return hs
